@@ -247,7 +247,8 @@ def run(ctx):
         if rep == 0:
             # whatever the seed: keyboard walks, symbols, years and a context string, so that the next training (over the same
             # rule directory) finds folders of categories it does not produce itself
-            pws = ['1qaz2wsx', 'zaq1!@#', 'pass1999', '#1love', '$$$', 'Ab12!'] + pws
+            # ... and passwords in which white space ends an initial, a transition and an end n-gram of every size 2..4
+            pws = ['1qaz2wsx', 'zaq1!@#', 'pass1999', '#1love', '$$$', 'Ab12!', 'ab cd ', 'b b b', ' z z ', 'x\xa0y\xa0', 'ab cd '] + pws
         elif rep == 1:
             pws = ['password', 'hello', 'abc', 'Summer', 'password', 'пароль', 'яжяж1', 'пароль']      # cp1251: non-ASCII n-grams in every OMEN file
         tf = os.path.join(root, 'train.txt')
@@ -283,6 +284,10 @@ def run(ctx):
             viol.append({'property': 'C07', 'kind': 'scorer-omen-encoding', 'error': repr(e)[:200],
                          'witness': {'passwords': pws, 'encoding': enc}})
             continue
+        if not okg:
+            # the guesser refuses OMEN files the trainer has just written
+            viol.append({'property': 'C07', 'kind': 'omen-loader-refuses-trained-files', 'log_tail': buf.getvalue()[-200:],
+                         'witness': {'passwords': pws, 'encoding': enc}})
         if okg:
             # what the guesser loaded against the text of the files, read here in the ruleset's encoding: every n-gram the guesser
             # holds is a string over the loaded alphabet of the right length, and the three level files list the same contexts
